@@ -138,7 +138,19 @@ def reader_run(pid, tier, mcs, mult, known_match=None, rbufs=RBUFS, chunks=CHUNK
         f2 = core.drive("reader", [prog], rname, shards=1)
         r2 = core.validate("WSReaderTrace.tla", "WSReaderTrace.cfg", f2, rname)
         if not r2["rejections"]:
-            raise core.Infra("rejection of %s did not reproduce" % rj["tid"])
+            # not reproducible alone: does it depend on what ran before it in the same process?
+            seq = core.history_of(conc, prog["id"])
+            core.rundir(rname)
+            f3 = core.drive("reader", seq, rname, shards=1)
+            r3 = core.validate("WSReaderTrace.tla", "WSReaderTrace.cfg", f3, rname, max_rej=50)
+            hit = [x for x in r3["rejections"] if x["tid"] == prog["id"]]
+            if not hit:
+                raise core.Infra("rejection of %s did not reproduce" % rj["tid"])
+            path = core.save_replay(pid, "reader", dict(id=prog["id"], batch=seq), hit[0]["trace"],
+                                    "event %d not explained by WSReader (only after the %d programs that ran before it in the same process): %s" % (
+                                        hit[0]["index"], len(seq) - 1, json.dumps(hit[0]["event"])[:400]))
+            violations.append(path)
+            continue
         rj2 = r2["rejections"][0]
         k = known_match(pid, prog, rj2) if known_match else None
         if k:
